@@ -204,3 +204,52 @@ func c20KeyByDirection(o *an.Obl, fn *an.Func, ch string, dirFact func(node1 boo
 	}
 	return objs[0]
 }
+
+// c20ValidatorChain: the exported validator fn (a field check followed by a
+// signature check) can answer nil only after both checks succeeded, each of
+// them applied to the validator's own arguments (fieldArgs / sigArgs are the
+// canonical argument lists, $pN = the validator's N-th parameter), which are
+// never overwritten: callers that are checked for "passes fn" rely on fn
+// handing exactly what it was given to both steps.
+func c20ValidatorChain(o *an.Obl, p *an.Prog, fn, fields, sig string, fieldArgs, sigArgs []string) {
+	g := p.Func(fn)
+	a, b := g.Calls(an.CalleeIs(fields), true), g.Calls(an.CalleeIs(sig), true)
+	if !needExactly(o, g, fields, a, 1) || !needExactly(o, g, sig, b, 1) {
+		return
+	}
+	for _, row := range []struct {
+		s    an.Site
+		want []string
+		what string
+	}{{a[0], fieldArgs, "field check"}, {b[0], sigArgs, "signature check"}} {
+		if row.s.Fn != g {
+			o.FailAt(g.ID+"#deferred-"+row.what, row.s.Where(), "the %s of %s runs inside a function literal", row.what, fn)
+			continue
+		}
+		got := g.ArgCanon(row.s)
+		o.Site("%s: %s%v", fn, an.Text(row.s.Node.(*ast.CallExpr).Fun), got)
+		if strings.Join(got, ", ") != strings.Join(row.want, ", ") {
+			o.FailAt(g.ID+"#"+strings.ReplaceAll(row.what, " ", "-")+"-args", row.s.Where(), "the %s of %s is applied to (%s), expected the validator's own arguments (%s)", row.what, fn, strings.Join(got, ", "), strings.Join(row.want, ", "))
+		}
+	}
+	var names []string
+	for _, v := range g.Params(false) {
+		names = append(names, v.Name())
+	}
+	notReassigned(o, g, names...)
+	for _, s := range g.SuccessReturns() {
+		if s.V == b[0].V {
+			// `return <signature check>(…)`: its verdict is the answer
+			mustPass(o, g, fields, a, an.OkErrNil, []an.Site{s})
+			continue
+		}
+		if g.ClassifyReturn(s) == an.RetSuccess {
+			if skip := g.Graph().Reach(g.Graph().Entry, nil, map[*an.FlowVertex]bool{b[0].V: true}); skip[s.V] {
+				o.FailAt(g.ID+"#success-without-signature", s.Where(), "%s succeeds without the signature check", fn)
+				continue
+			}
+		}
+		mustPass(o, g, fields, a, an.OkErrNil, []an.Site{s})
+		mustPass(o, g, sig, b, an.OkErrNil, []an.Site{s})
+	}
+}
